@@ -54,7 +54,7 @@ class NormalizationLayer(Model):
         # compute width and center
         diag = []
         bias = []
-        for i in range(domain.dim):
+        for i in range(domain.space.dim):
             diag.append(maxs[i] - mins[i])
             bias.append((maxs[i] + mins[i]) / 2)
 
